@@ -184,11 +184,11 @@ var confusable = [][]string{
 	{"ta.Iface", "tb.Iface"},
 	{"gen.L[int]", "gen.L[string]", "gen.L[A]", "AL", "gen.L[N]"},
 	{"gen.L[ta.Template]", "gen.L[tb.Template]", "gen.L[ATa]"},
-	{"gen.Pair[string, int]", "gen.Pair[int, string]"},
+	{"gen.Pair[string, int]", "gen.Pair[int, string]", "gen.Pair[string, string]", "gen.Pair[string, N]", "gen.Pair[string, A]"},
 	{"ta.Set[int]", "tb.Set[int]", "ta.Set[string]", "ta.Set[A]"},
 	{"any", "interface{}", "error"},
 	{"RecI", "RecJ"}, {"Rd", "RdA", "RdW"}, {"AP", "*int", "PN", "*N"}, {"AS", "[]string"},
-	{"TP1[int, string]", "TP2[int, string]", "TP1[A, string]"},
+	{"TP1[int, string]", "TP2[int, string]", "TP1[A, string]", "TP1[int, int]"},
 	{"ExecA", "ExecB"}, {"Impl", "PImpl", "Emb", "EmbP"}, {"string", "int"}, {"bool", "int"}, {"float64", "int"},
 	{"gen.Getter[int]", "gen.Getter[string]"},
 }
@@ -394,7 +394,11 @@ var fixed = []string{
 	"interface{ M() }", "interface{ m() }", "interface{ M(); m() }", "interface{ secret() }", "ExecA", "ExecB",
 	"interface{ Exec(t *ta.Template) error }", "interface{ Exec(t *tb.Template) error }", "interface{ Val() int }", "interface{ Len() int }",
 	"Impl", "*Impl", "PImpl", "*PImpl", "Emb", "EmbP", "*Emb", "FieldNotMethod", "WrongSig", "TaUser", "TbUser",
-	"TP1[int, string]", "TP2[int, string]", "TP1[A, string]", "TP1[string, int]",
+	"TP1[int, string]", "TP2[int, string]", "TP1[A, string]", "TP1[string, int]", "TP1[int, int]", "TP1[int, A]",
+	"gen.Pair[string, string]", "gen.Pair[string, N]", "gen.Pair[A, N]", "gen.Pair[int, N]",
+	"func() (int, string)", "func(int, string)", "func(string, int)", "func(int, string) string", "func(int) (string, string)",
+	"map[string]string", "struct{ a int; B int }", "struct{ a int; B string; c int }", "[2]string", "[]int", "*string", "chan string",
+	"interface{ M(int) }", "interface{ M(string) }", "interface{ M() int }", "interface{ M() string }", "interface{ M(); N() }",
 }
 
 type out struct {
